@@ -2739,6 +2739,78 @@ def _heap_sift_down_to_bottom(it, hp, pos, fr):
     _heap_sift_up(it, hp, start, pos, fr)
 
 
+@model('std::cmp::Ordering::then_with', 'core::cmp::Ordering::then_with', 'Ordering::then_with')
+def m_ordering_then_with(it, args, fr, callee):
+    o = args[0]
+    if o.variant != 1:
+        return o
+    return it.call_value(args[1], [], fr)
+
+
+@model('std::cmp::Ordering::then', 'core::cmp::Ordering::then', 'Ordering::then')
+def m_ordering_then(it, args, fr, callee):
+    return args[0] if args[0].variant != 1 else args[1]
+
+
+# BTreeSet<T> of a user type: the MapV('set') list is kept in ascending order of <T as Ord>::cmp (the crate's own MIR), an element that
+# compares Equal to one already present is NOT inserted (std: `insert` returns false and keeps the old one)
+def _treeset_arg(it, args, fr, callee):
+    st = args[0]
+    while type(st) is Ref:
+        st = st.cont[st.key]
+    if type(st) is not MapV:
+        raise Unsupported('BTreeSet method on %r' % (st,))
+    ty = _heap_elem_ty(it, callee, fr)
+    if ty is None:
+        raise Unsupported('BTreeSet element type of %s' % callee[:80])
+    return st, ty
+
+
+@model('BTreeSet::insert', 'std::collections::BTreeSet::insert')
+def m_treeset_insert(it, args, fr, callee):
+    st, ty = _treeset_arg(it, args, fr, callee)
+    if ty in INT_W or ty in ('f64', 'bool'):
+        return m_hashset_insert(it, args, fr, callee)          # scalar elements: the generic set model
+    x = args[1]
+    pos = len(st.items)
+    for i, (k, _) in enumerate(st.items):
+        c = elem_cmp(it, ty, Ref([x], 0), Ref([k], 0), fr)
+        if c == 1:
+            return Sc('bool', 0)
+        if c == 0 and pos == len(st.items):
+            pos = i
+    st.items.insert(pos, (x, UNIT))
+    return Sc('bool', 1)
+
+
+@model('BTreeSet::first', 'std::collections::BTreeSet::first')
+def m_treeset_first(it, args, fr, callee):
+    st, ty = _treeset_arg(it, args, fr, callee)
+    if not st.items:
+        return none()
+    return some(Ref([st.items[0][0]], 0))
+
+
+@model('BTreeSet::pop_first', 'std::collections::BTreeSet::pop_first')
+def m_treeset_pop_first(it, args, fr, callee):
+    st, ty = _treeset_arg(it, args, fr, callee)
+    if not st.items:
+        return none()
+    return some(st.items.pop(0)[0])
+
+
+@model('BTreeSet::len', 'std::collections::BTreeSet::len')
+def m_treeset_len(it, args, fr, callee):
+    st, ty = _treeset_arg(it, args, fr, callee)
+    return Sc('usize', len(st.items))
+
+
+@model('BTreeSet::is_empty', 'std::collections::BTreeSet::is_empty')
+def m_treeset_is_empty(it, args, fr, callee):
+    st, ty = _treeset_arg(it, args, fr, callee)
+    return Sc('bool', int(not st.items))
+
+
 @model('BinaryHeap::new', 'std::collections::BinaryHeap::new')
 def m_heap_new(it, args, fr, callee):
     return HeapV()
